@@ -113,14 +113,13 @@ func setupRevVec(fx *vfixture, rv *RevVecIn) {
 
 type DNIn struct {
 	Leaf struct {
-		OK bool              `json:"ok"`
-		DN map[string]string `json:"dn"`
-		// for uninterpretable subjects: which shape
-		Shape string `json:"shape"`
+		OK    bool    `json:"ok"`
+		DN    flexMap `json:"dn"`
+		Shape string  `json:"shape"`
 	} `json:"leaf"`
 	IDs []struct {
-		Kind string            `json:"kind"`
-		DN   map[string]string `json:"dn"`
+		Kind string  `json:"kind"`
+		DN   flexMap `json:"dn"`
 	} `json:"ids"`
 }
 
